@@ -761,27 +761,30 @@ pub fn exec(t: &CursorTrace, stats: &mut CStats) -> Result<bool, CViol> {
 const HUGE: [usize; 3] = [usize::MAX, usize::MAX / 2 + 1, 1 << 32];
 
 fn gen_valid_win(rng: &mut Rng, wc: usize, wr: usize) -> Win {
-    // mostly interior / edge-touching non-empty windows; sometimes width 1, height 1 or empty
+    if wc == 0 || wr == 0 {
+        return Win { start: (0, 0), end: (0, 0) };
+    }
+    // mostly non-empty windows (interior or touching edges); sometimes width 1, height 1,
+    // the full extent, or empty
     let (c0, c1, r0, r1);
-    match rng.below(10) {
-        0 if wc > 0 => {
+    match rng.below(12) {
+        0 => {
+            c0 = rng.below(wc + 1);
+            c1 = if rng.chance(1, 2) { c0 } else { rng.range(c0, wc) };
+            r0 = rng.below(wr + 1);
+            r1 = if c1 > c0 { r0 } else { rng.range(r0, wr) };
+        }
+        1 => {
             c0 = rng.below(wc);
             c1 = c0 + 1;
-            r0 = rng.below(wr + 1);
-            r1 = rng.range(r0, wr);
-        }
-        1 if wr > 0 => {
             r0 = rng.below(wr);
-            r1 = r0 + 1;
-            c0 = rng.below(wc + 1);
-            c1 = rng.range(c0, wc);
+            r1 = rng.range(r0 + 1, wr);
         }
         2 => {
-            // empty
-            c0 = rng.below(wc + 1);
-            c1 = c0;
-            r0 = rng.below(wr + 1);
-            r1 = rng.range(r0, wr);
+            r0 = rng.below(wr);
+            r1 = r0 + 1;
+            c0 = rng.below(wc);
+            c1 = rng.range(c0 + 1, wc);
         }
         3 => {
             c0 = 0;
@@ -790,10 +793,13 @@ fn gen_valid_win(rng: &mut Rng, wc: usize, wr: usize) -> Win {
             r1 = wr;
         }
         _ => {
-            c0 = rng.below(wc + 1);
-            c1 = rng.range(c0, wc);
-            r0 = rng.below(wr + 1);
-            r1 = rng.range(r0, wr);
+            // keep at least half of each extent, so that nested windows stay interesting
+            let cw = rng.range((wc + 1) / 2, wc);
+            let rh = rng.range((wr + 1) / 2, wr);
+            c0 = rng.below(wc - cw + 1);
+            c1 = c0 + cw;
+            r0 = rng.below(wr - rh + 1);
+            r1 = r0 + rh;
         }
     }
     Win { start: (c0, r0), end: (c1, r1) }
@@ -802,38 +808,40 @@ fn gen_valid_win(rng: &mut Rng, wc: usize, wr: usize) -> Win {
 /// The argument of nth / nth_back / [i]: small values around the remaining length, and values
 /// chosen from the actual stride so that n*stride wraps to a small in-range number.
 fn gen_n(rng: &mut Rng, len: usize, stride: usize) -> usize {
-    match rng.below(16) {
+    if rng.chance(1, 7) {
+        // overflow provokers
+        let q = (u128::from(u64::MAX) + 1 + stride as u128 - 1) / stride as u128; // ceil(2^64 / stride)
+        let h = ((u128::from(u64::MAX) + 1) / 2 + stride as u128 - 1) / stride as u128; // ceil(2^63 / stride)
+        return match rng.below(6) {
+            0 => HUGE[rng.below(3)],
+            // n*stride wraps to a value < stride (or just below 2^64)
+            1 if stride > 1 => (q as usize).wrapping_add(rng.below(3)).wrapping_sub(1),
+            2 if stride > 1 => (h as usize).wrapping_add(rng.below(3)).wrapping_sub(1),
+            // wraps to small + a few rows
+            3 if stride > 1 => (q as usize).wrapping_add(rng.below(len + 2)),
+            4 if stride > 1 => (q as usize).wrapping_mul(rng.range(2, 5)).wrapping_add(rng.below(len + 2)),
+            _ => HUGE[rng.below(3)].wrapping_sub(rng.below(3)),
+        };
+    }
+    match rng.below(10) {
         0 => 0,
         1 => 1,
         2 => len.saturating_sub(1),
         3 => len,
         4 => len + 1,
-        5 => HUGE[rng.below(3)],
-        6 if stride > 1 => {
-            // ceil(2^64 / stride) (+/- 1): n*stride wraps to a value < stride
-            let q = (u128::from(u64::MAX) + 1 + stride as u128 - 1) / stride as u128;
-            (q as usize).wrapping_add(rng.below(3)).wrapping_sub(1)
+        _ => {
+            if rng.chance(1, 2) { rng.below(3) } else { rng.below(len + 2) }
         }
-        7 if stride > 1 => {
-            let q = ((u128::from(u64::MAX) + 1) / 2 + stride as u128 - 1) / stride as u128;
-            (q as usize).wrapping_add(rng.below(3)).wrapping_sub(1)
-        }
-        8 if stride > 1 => {
-            // k * ceil(2^64/stride) + small
-            let q = (u128::from(u64::MAX) + 1 + stride as u128 - 1) / stride as u128;
-            (q as usize).wrapping_add(rng.below(len + 2))
-        }
-        _ => rng.below(len + 2),
     }
 }
 
 pub fn gen_trace(rng: &mut Rng, prop: &str, thorough: bool) -> CursorTrace {
-    let max_dim = if thorough { 8 } else { 6 };
-    let (cols, rows) = match rng.below(12) {
+    let max_dim = if thorough { 12 } else { 8 };
+    let (cols, rows) = match rng.below(16) {
         0 => (0, 0),
         1 => (1, rng.range(1, max_dim)),
         2 => (rng.range(1, max_dim), 1),
-        _ => (rng.range(1, max_dim), rng.range(1, max_dim)),
+        _ => (rng.range(1, max_dim), rng.range(2, max_dim)),
     };
     // receiver
     let nest = match rng.below(6) {
@@ -907,13 +915,13 @@ pub fn gen_trace(rng: &mut Rng, prop: &str, thorough: bool) -> CursorTrace {
         _ => (wc * wr, cols.max(1)),
     };
     let is_cells = !matches!(iter, IterKind::Rows | IterKind::RowsMut | IterKind::Col(_) | IterKind::ColMut(_));
-    let n_calls = if thorough { rng.below(25) } else { rng.below(13) };
+    let n_calls = if thorough { rng.range(1, 28) } else { rng.range(1, 16) };
     let mut calls = Vec::new();
     // swarm: which call kinds are enabled in this run
-    let w_next = rng.range(1, 4) as u32;
-    let w_back = rng.range(0, 4) as u32;
-    let w_nth = rng.range(0, 4) as u32;
-    let w_nth_back = rng.range(0, 4) as u32;
+    let w_next = rng.range(2, 6) as u32;
+    let w_back = rng.range(0, 6) as u32;
+    let w_nth = rng.range(0, 3) as u32;
+    let w_nth_back = rng.range(0, 3) as u32;
     let w_obs = rng.range(0, 2) as u32;
     let w_idx = if matches!(iter, IterKind::Col(_) | IterKind::ColMut(_)) { rng.range(0, 3) as u32 } else { 0 };
     for _ in 0..n_calls {
